@@ -49,7 +49,7 @@ func (s *scan) braceTest(e ast.Expr, ch int64) (idx types.Object, eq, ok bool) {
 	if o := objOf(s.info, x); o != nil {
 		var found types.Object
 		ast.Inspect(s.fn.Decl.Body, func(n ast.Node) bool {
-			if r, isR := n.(*ast.RangeStmt); isR && objOf(s.info, r.X) == s.key && r.Value != nil && objOf(s.info, r.Value) == o && r.Key != nil {
+			if r, isR := n.(*ast.RangeStmt); isR && keyBytes(s.info, r.X, s.key) && r.Value != nil && objOf(s.info, r.Value) == o && r.Key != nil {
 				found = objOf(s.info, r.Key)
 			}
 			return true
@@ -203,11 +203,143 @@ func tagScan(c *core.Ctx, fn *core.Fn, name string, crcFn *types.Func) {
 			}
 		}
 	}
+	if runeOffsets(c, scanFn, name, scanKey) {
+		return
+	}
 	if !scanLoops(c, scanFn, name, scanKey) && !scanLib(c, scanFn, name, scanKey) {
 		c.Undecidedf("R3.tag", name+"/skeleton", scanFn.Decl.Pos(), "%s locates the hash tag neither with one test for '{' and one for '}' nor with strings.Index* calls", scanFn.Decl.Name.Name)
 		return
 	}
 	hashPart(c, fn, name, crcFn, key)
+}
+
+// keyBytes: e is the key itself or []byte(key): ranging over either yields byte
+// offsets into the key ('{' and '}' are single bytes that no multi-byte
+// sequence contains, so the rune decoded at a brace is the brace).
+func keyBytes(info *types.Info, e ast.Expr, key types.Object) bool {
+	e = ast.Unparen(e)
+	if objOf(info, e) == key && key != nil {
+		return true
+	}
+	call, ok := e.(*ast.CallExpr)
+	if !ok || len(call.Args) != 1 || objOf(info, call.Args[0]) != key {
+		return false
+	}
+	tv, isT := info.Types[call.Fun]
+	if !isT || !tv.IsType() {
+		return false
+	}
+	sl, isSl := tv.Type.Underlying().(*types.Slice)
+	if !isSl {
+		return false
+	}
+	b, isB := sl.Elem().Underlying().(*types.Basic)
+	return isB && b.Kind() == types.Uint8
+}
+
+// runeOffsets: a position counted in RUNES (the index of a range over
+// []rune(key)) is used as a BYTE offset into the key (key[i], key[i+1:k]). The
+// two agree only while every character in front of the position is one byte
+// long; the specification is about byte strings. Located and wrong whatever
+// the rest of the scan looks like; reports true when it fired.
+func runeOffsets(c *core.Ctx, fn *core.Fn, name string, keyObj types.Object) bool {
+	info := fn.Pkg.TypesInfo
+	body := fn.Decl.Body
+	isRunesOfKey := func(e ast.Expr) bool {
+		e = ast.Unparen(e)
+		if o := objOf(info, e); o != nil && o != keyObj { // runes := []rune(key)
+			if rhs, other := defsOf(info, body, o); len(rhs) == 1 && other == 0 && rhs[0] != nil {
+				e = ast.Unparen(rhs[0])
+			}
+		}
+		call, ok := e.(*ast.CallExpr)
+		if !ok || len(call.Args) != 1 || objOf(info, call.Args[0]) != keyObj {
+			return false
+		}
+		tv, isT := info.Types[call.Fun]
+		if !isT || !tv.IsType() {
+			return false
+		}
+		sl, isSl := tv.Type.Underlying().(*types.Slice)
+		if !isSl {
+			return false
+		}
+		b, isB := sl.Elem().Underlying().(*types.Basic)
+		return isB && (b.Kind() == types.Int32 || b.Kind() == types.Rune)
+	}
+	runeIdx := map[types.Object]bool{}
+	var loop *ast.RangeStmt
+	ast.Inspect(body, func(n ast.Node) bool {
+		if r, ok := n.(*ast.RangeStmt); ok && r.Key != nil && isRunesOfKey(r.X) {
+			if o := objOf(info, r.Key); o != nil {
+				runeIdx[o] = true
+				loop = r
+			}
+		}
+		return true
+	})
+	if len(runeIdx) == 0 {
+		return false
+	}
+	mentions := func(e ast.Expr) bool {
+		hit := false
+		ast.Inspect(e, func(n ast.Node) bool {
+			if id, ok := n.(*ast.Ident); ok && runeIdx[info.Uses[id]] {
+				hit = true
+			}
+			return true
+		})
+		return hit
+	}
+	// positions computed from the rune index by plain arithmetic (k := i, start := i + 1)
+	for changed := true; changed; {
+		changed = false
+		ast.Inspect(body, func(n ast.Node) bool {
+			if as, ok := n.(*ast.AssignStmt); ok && len(as.Lhs) == len(as.Rhs) {
+				for i, l := range as.Lhs {
+					o := objOf(info, l)
+					if o == nil || runeIdx[o] || !mentions(as.Rhs[i]) {
+						continue
+					}
+					pure := true
+					ast.Inspect(as.Rhs[i], func(m ast.Node) bool {
+						switch m.(type) {
+						case *ast.CallExpr, *ast.IndexExpr, *ast.SliceExpr:
+							pure = false
+						}
+						return true
+					})
+					if b, isB := o.Type().Underlying().(*types.Basic); pure && isB && b.Info()&types.IsInteger != 0 {
+						runeIdx[o], changed = true, true
+					}
+				}
+			}
+			return true
+		})
+	}
+	var bad ast.Expr
+	ast.Inspect(body, func(n ast.Node) bool {
+		if bad != nil {
+			return false
+		}
+		switch x := n.(type) {
+		case *ast.IndexExpr:
+			if objOf(info, x.X) == keyObj && mentions(x.Index) {
+				bad = x
+			}
+		case *ast.SliceExpr:
+			if objOf(info, x.X) == keyObj && (x.Low != nil && mentions(x.Low) || x.High != nil && mentions(x.High)) {
+				bad = x
+			}
+		}
+		return true
+	})
+	if bad == nil {
+		return false
+	}
+	c.Check("R3.tag", name+"/byte-offsets", bad.Pos(), false,
+		fmt.Sprintf("%s takes a position counted in runes (the index of `%s`) as a byte offset into the key: for a key with a multi-byte UTF-8 character in front of the '{' (\"caf\xc3\xa9:{user1000}:profile\") the tag is cut at the wrong offset (\"{user1000\" instead of \"user1000\") or the slice bounds are inverted and the function panics; Redis Cluster hashes byte strings", c.Src(bad), c.Src(loop.X)))
+	return true
 }
 
 // scanLoops checks the hand-written scan; false when fn has no such scan.
@@ -224,7 +356,7 @@ func scanLoops(c *core.Ctx, fn *core.Fn, name string, keyObj types.Object) bool 
 				}
 			}
 		case *ast.RangeStmt:
-			if objOf(info, x.X) == s.key {
+			if keyBytes(info, x.X, s.key) {
 				for _, e := range []ast.Expr{x.Key, x.Value} {
 					if e != nil && objOf(info, e) != nil {
 						s.scanV[objOf(info, e)] = true
